@@ -17,7 +17,7 @@
    rejected, being either oversized or non-minimal.  Close codes: valid = 1000-1003, 1007-1013,
    3000-4999 (RFC 7.4.1/7.4.2 plus the two IANA registrations the library's table cites). *)
 From Verif Require Import Lib.Base Lib.Sx Lib.Utf8 Model.WsRead.
-From Verif Require Import Proofs.WsReadUtf8 Proofs.WsRead Proofs.WsReadRefine Proofs.WsReadProps Proofs.WsReadCut Proofs.WsReadFrames Proofs.WsReadApp Proofs.WsReadPartial.
+From Verif Require Import Proofs.WsReadUtf8 Proofs.WsRead Proofs.WsReadRefine Proofs.WsReadProps Proofs.WsReadCut Proofs.WsReadFrames Proofs.WsReadApp Proofs.WsReadPartial Proofs.WsReadNeg.
 From Verif Require Import Gen.Gen_websocket.
 Open Scope Z_scope.
 
@@ -196,6 +196,32 @@ Theorem c14_abandoned_limit_carry :
     Ok ([RMsg 1 (repeat 7%N 120); RMsg 2 (repeat 9%N 80); RErr EUeof], []).
 Proof. exact abandoned_limit_carry. Qed.
 
+(* Reserved bits on a connection with permessage-deflate NEGOTIATED (RFC 7692 6): only RSV1 alone on
+   the first frame of a data message becomes legal.  From every reader state at a frame boundary,
+   negotiated or not: a frame with nonzero reserved bits other than that one case -- RSV1 together
+   with RSV2 / RSV3 on a data frame, RSV2 / RSV3 anywhere, RSV1 (alone or combined) on continuation,
+   ping, pong and close frames -- is refused with a protocol error (Close 1002 by handleProtocolError).
+   The reader here is the code after fix ddfeb27; before it RSV1 was accepted on continuation and
+   control frames of a negotiated connection. *)
+Theorem c14_reserved_bits_negotiated neg fixed c p0 p1 r :
+  c_rem c <= 0 -> c_in c = p0 :: p1 :: r -> wf_byte p0 ->
+  let rsv := ((p0 / 16) mod 8)%N in let op := (p0 mod 16)%N in
+  rsv <> 0%N -> ~ (neg = true /\ rsv = 4%N /\ (op = 1%N \/ op = 2%N)) ->
+  exists c' m, advance_frame_gen neg fixed c = MErr c' (EProto m).
+Proof. exact (reserved_bits_rejected neg fixed c p0 p1 r). Qed.
+
+(* the RFC side (rfc_violation_neg: the framing rules with the negotiated flag) flags the same frames *)
+Theorem c14_rfc_reserved_bits neg server is_open h :
+  (f_rsv h < 8)%N -> f_rsv h <> 0%N ->
+  ~ (neg = true /\ f_rsv h = 4%N /\ (f_op h = 1%N \/ f_op h = 2%N)) ->
+  rfc_violation_neg neg server is_open h = true.
+Proof. exact (rfc_reserved_bits_violation neg server is_open h). Qed.
+
+(* without the extension the general reader is the reader all other theorems are about *)
+Theorem c14_reader_not_negotiated fixed server limit inp :
+  lib_session_gen false fixed server limit inp = lib_session fixed server limit 0 inp.
+Proof. exact (lib_session_gen_false fixed server limit inp). Qed.
+
 (* No run-time panic for any byte stream and fewer than 1000 failed reads (C07 imports this). *)
 Theorem ws_read_total server limit extra bs :
   wf_bytes bs -> limit < 9223372036854775808 -> (extra < 999)%nat ->
@@ -248,6 +274,9 @@ Print Assumptions c14_app_writes_do_not_change_reads.
 Print Assumptions c14_latched_writes_nothing.
 Print Assumptions c14_partial_reads_frame_partial.
 Print Assumptions c14_abandoned_limit_carry.
+Print Assumptions c14_reserved_bits_negotiated.
+Print Assumptions c14_rfc_reserved_bits.
+Print Assumptions c14_reader_not_negotiated.
 Print Assumptions ws_read_total.
 Print Assumptions ws_advance_total.
 Print Assumptions ws_read_total_all.
